@@ -192,6 +192,7 @@ type c16Render struct {
 	level       []string // "\x00" = field absent
 	useRules    bool
 	samePod     bool
+	expiration  string // limiter_expiration; "" = switched off (100000h)
 }
 
 var c16Base = time.Date(2024, 1, 1, 0, 0, 0, 0, time.UTC)
@@ -222,6 +223,13 @@ func c16MakeRender(c *c16Case, rng *rand.Rand) *c16Render {
 	}
 	r.samePod = rng.Intn(2) == 0
 	return r
+}
+
+func (r *c16Render) expirationOrOff() string {
+	if r.expiration == "" {
+		return "100000h"
+	}
+	return r.expiration
 }
 
 func (r *c16Render) variant() string {
@@ -337,7 +345,7 @@ func c16NewPlugTarget(env *c16Env, c *c16Case, r *c16Render) *c16PlugTarget {
 		LimitKind:         kind,
 		BucketsCount:      c.C,
 		BucketInterval:    cfg.Duration(r.intervalStr),
-		LimiterExpiration: "100000h",
+		LimiterExpiration: cfg.Duration(r.expirationOrOff()),
 		LimitDistribution: c16DistCfg(c.D),
 	}
 	if !r.useRules {
@@ -574,6 +582,150 @@ func TestVerifC16(t *testing.T) {
 	}
 	wg.Wait()
 	res := map[string]interface{}{"executed": executed, "stats": total, "mismatches": recs, "by_kind": byKind}
+	b, _ := json.Marshal(res)
+	if err := os.WriteFile(out, b, 0o644); err != nil {
+		t.Fatal(err)
+	}
+}
+
+// ---------------------------------------------------------------------------------------------
+// expiry family: the REAL limiters map maintenance (wall clock, every maintenanceInterval) with a short
+// limiter_expiration.  Two keys (one through a rule, one through the default rule) are hit continuously
+// for longer than limiter_expiration + one maintenance interval with the bucket clock frozen, so every
+// event is timed in one bucket: a key that keeps arriving must stay within its limit in that bucket.
+// A third key is left idle in between: it must be forgotten (shows that expiry really is on; allowed).
+//
+// No timing assumption decides the verdict: the harness reads the map generation (curGen) before every
+// hit.  The unchanged code forgets a limiter only if the generation it was stamped with at its last use
+// is limiter_expiration behind, i.e. only if two successively observed generations are that far apart
+// (maintenance stalled / the hitter starved: the key WAS idle from the code's point of view).  Such a
+// run is reported as inconclusive and repeated by the driver, never as a violation.
+
+type c16ExpiryOut struct {
+	ExpirationMs int64     `json:"expiration_ms"`
+	DurationMs   int64     `json:"duration_ms"`
+	Hits         int       `json:"hits"`
+	Generations  int       `json:"generations"`
+	MaxGenGapMs  int64     `json:"max_gen_gap_ms"`
+	SpanMs       int64     `json:"span_ms"`
+	Replaced     int       `json:"limiters_replaced"`
+	IdleEvicted  bool      `json:"idle_evicted"`
+	Passed       []int64   `json:"passed"`
+	Limits       []int64   `json:"limits"`
+	Conclusive   bool      `json:"conclusive"`
+	Why          string    `json:"why"`
+	Violations   []*c16Rec `json:"violations"`
+}
+
+func TestVerifC16Expiry(t *testing.T) {
+	out := os.Getenv("VERIF_EXPIRY_OUT")
+	if out == "" {
+		t.Skip("VERIF_EXPIRY_OUT not set")
+	}
+	const expiration = 2500 * time.Millisecond
+	runFor := expiration + 2*maintenanceInterval + 300*time.Millisecond
+
+	c := &c16Case{S: "expiry", C: 2, K: 0, D: 0, L: []int64{2, 3}}
+	r := &c16Render{interval: time.Minute, intervalStr: "1m", level: []string{"info"}, useRules: true,
+		expiration: "2500ms", phaseNow: []time.Duration{30 * time.Second}, phaseTs: []time.Duration{30 * time.Second}}
+	env := &c16Env{
+		name: fmt.Sprintf("verif_c16_expiry_%d", time.Now().UnixNano()),
+		ctl:  metric.NewCtl("verif_c16_expiry", prometheus.NewRegistry(), 0, 0),
+		lg:   zap.NewNop().Sugar(),
+	}
+	tgt := c16NewPlugTarget(env, c, r)
+	defer tgt.close()
+	lm := tgt.p.limitersMap
+	t0 := r.at(0, 0, r.phaseNow[0])
+
+	res := &c16ExpiryOut{ExpirationMs: expiration.Milliseconds(), Limits: c.L, Passed: make([]int64, len(c.L))}
+	or := c16NewOracle(c)
+	got := map[int][]int{}
+	failed := map[int]bool{}
+	hit := func(k int) bool {
+		ev := r.event(0, k, t0, 1)
+		ok := tgt.decide(k, ev, t0, t0)
+		insaneJSON.Release(ev.Root)
+		return ok
+	}
+
+	// the idle key (default rule, limit 3): fill its bucket now, look again at the end
+	idleFilled := 0
+	for i := 0; i < 4; i++ {
+		ev := r.event(0, 3, t0, 1) // key 3 -> grp g3 -> default rule, pod k3 (or p): its own limiter
+		if tgt.decide(3, ev, t0, t0) {
+			idleFilled++
+		}
+		insaneJSON.Release(ev.Root)
+	}
+
+	var lastGen, firstGen int64
+	prev := map[string]*limiterWithGen{}
+	start := time.Now()
+	for time.Since(start) < runFor {
+		lm.mu.RLock()
+		g := lm.curGen
+		for name, l := range lm.lims {
+			if p, has := prev[name]; has && p != l {
+				res.Replaced++
+			}
+			prev[name] = l
+		}
+		lm.mu.RUnlock()
+		if res.Generations == 0 {
+			firstGen, lastGen, res.Generations = g, g, 1
+		} else if g != lastGen {
+			if gap := (g - lastGen) / 1000; gap > res.MaxGenGapMs {
+				res.MaxGenGapMs = gap
+			}
+			lastGen = g
+			res.Generations++
+		}
+		for k := 1; k <= 2; k++ {
+			b, _, _ := or.charge(k, 0, 0)
+			must, why := or.must(k, b, 1, 0)
+			ok := hit(k)
+			res.Hits++
+			g01 := 0
+			if ok {
+				g01 = 1
+				res.Passed[k-1]++
+			}
+			if len(got[k]) < 40 {
+				got[k] = append(got[k], g01)
+			}
+			if !failed[k] && ((must == c16Reject && ok) || (must == c16Pass && !ok)) {
+				failed[k] = true
+				kind := "over_limit"
+				if !ok {
+					kind = "early_reject"
+				}
+				res.Violations = append(res.Violations, &c16Rec{Kind: kind, Path: "plugin_expiry", Slice: "expiry", LKind: limitKindCount,
+					Buckets: c.C, Step: res.Hits - 1, Must: must, Got: got[k],
+					Detail: fmt.Sprintf("key %d hit every ~5ms with limiter_expiration=%s, all events timed in one bucket: %s; %d ms after start, map generation gaps <= %d ms",
+						k, expiration, why, time.Since(start).Milliseconds(), res.MaxGenGapMs),
+					Variant: r.variant(), Case: c})
+			}
+			or.record(k, b, 1, 0, ok)
+		}
+		time.Sleep(5 * time.Millisecond)
+	}
+	res.DurationMs = time.Since(start).Milliseconds()
+	res.SpanMs = (lastGen - firstGen) / 1000
+	ev := r.event(0, 3, t0, 1)
+	res.IdleEvicted = idleFilled == 3 && tgt.decide(3, ev, t0, t0)
+	insaneJSON.Release(ev.Root)
+
+	switch {
+	case res.MaxGenGapMs >= expiration.Milliseconds():
+		res.Why = "maintenance stalled for a whole limiter_expiration: the keys were idle from the code's point of view"
+	case res.SpanMs < (expiration + maintenanceInterval/2).Milliseconds():
+		res.Why = "the observed map generations do not span limiter_expiration plus a maintenance interval"
+	case !res.IdleEvicted && len(res.Violations) == 0:
+		res.Why = "the idle key was not forgotten: expiry was not exercised"
+	default:
+		res.Conclusive = true
+	}
 	b, _ := json.Marshal(res)
 	if err := os.WriteFile(out, b, 0o644); err != nil {
 		t.Fatal(err)
